@@ -130,9 +130,11 @@ class State:
         self.decisions = []
         self.unknown_atoms = []
         self.asserts = []
+        self.assumed = {}    # Unknown tag -> bool (facts learnt on this path, e.g. a wait predicate that returned true)
 
     def clone(self):
         s = State()
+        s.assumed = dict(self.assumed)
         s.store = dict(self.store); s.events = list(self.events); s.decisions = list(self.decisions)
         s.unknown_atoms = list(self.unknown_atoms); s.asserts = list(self.asserts)
         return s
@@ -162,6 +164,14 @@ class Domain:
     def opaque(self, fn):
         """tulz function that must not be inlined (treated through ext_call)"""
         return False
+
+    def sync_closures(self, ex, node, st, frame):
+        """[(Closure, [arg values])] that the external call `node` invokes synchronously before it returns"""
+        return []
+
+    def after_closure(self, ex, node, closure, ret, st):
+        """post-process a synchronously invoked closure's result (return False to discard the path as infeasible)"""
+        return None
 
     def on_assert(self, ex, node, st, frame):
         """assert(cond) encountered: rule may record it / assume it"""
@@ -194,6 +204,24 @@ class Exec:
         for st2, fr2, end in self._walk(fr, st):
             P = Path(); P.events = st2.events; P.decisions = st2.decisions; P.store = st2.store; P.ret = fr2.ret; P.end = end
             P.unknown_atoms = st2.unknown_atoms; P.asserts = st2.asserts
+            out.append(P)
+        return out
+
+    def run_closure(self, closure, args=None, this_path=('this',), bind=None, state=None):
+        """enumerate the paths of a lambda body; captured variables get their captured values (or bind[decl] overrides)"""
+        st = state or State()
+        fr = Frame(closure.fn, this_path, 0)
+        for dk, (mode, v) in closure.env.items():
+            st.store[('l', fr.id, dk)] = (bind[dk] if bind and dk in bind else (v if mode == 'val' else Ref(v)))
+        for i, p in enumerate(closure.fn.d['params']):
+            st.store[('l', fr.id, p['decl'])] = (args[i] if args and i < len(args) and args[i] is not None else self.dom.init_param(closure.fn, p))
+        out = []
+        for st2, fr2, end in self._walk(fr, st):
+            P = Path(); P.events = st2.events; P.decisions = st2.decisions; P.store = st2.store; P.end = end
+            P.unknown_atoms = st2.unknown_atoms
+            r = fr2.ret
+            if isinstance(r, Ref): r = self.read(r.loc, st2)
+            P.ret = r
             out.append(P)
         return out
 
@@ -239,6 +267,7 @@ class Exec:
                 yield st, fr, 'exit'; continue
             succs = B.succs
             if B.cond is not None and len(succs) == 2:
+                self._st = st
                 v = fr.vals.get(B.cond.id)
                 if v is None: v = self._eval(B.cond, st, fr)
                 if isinstance(v, Ref): v = self.read(v.loc, st, B.cond)
@@ -262,6 +291,9 @@ class Exec:
                     fr2.vals[B.cond.id] = val
                     vis = dict(visits); vis[tgt] = vis.get(tgt, 0) + 1
                     if vis[tgt] > self.dom.loop_unroll + 1:
+                        # unroll bound reached: a forked branch is dropped (the other successor covers the loop exit);
+                        # a decided branch (no alternative) ends the path
+                        if len(targets) > 1: continue
                         yield st2, fr2, 'loop'; continue
                     work.append((tgt, 0, st2, fr2, vis))
                 continue
@@ -273,7 +305,11 @@ class Exec:
             tgt = nxt[0]
             vis = dict(visits); vis[tgt] = vis.get(tgt, 0) + 1
             if vis[tgt] > self.dom.loop_unroll + 1:
-                yield st, fr, 'loop'; continue
+                TB = cfg.blocks[tgt]
+                # a loop header with its own exit test decides there (the forked body branch is dropped); a loop
+                # without exit (`while (true)`) ends the path here
+                if not (TB.cond is not None and len(TB.succs) == 2) or vis[tgt] > self.dom.loop_unroll + 4:
+                    yield st, fr, 'loop'; continue
             work.append((tgt, 0, st, fr, vis))
 
     def _clone_frame(self, fr, vals):
@@ -288,7 +324,7 @@ class Exec:
             if n.dk in ('local', 'param'):
                 key = ('l', fr.id, n.decl)
                 v = st.store.get(key)
-                if isinstance(v, Ref) and n.declref: return v.loc
+                if isinstance(v, Ref) and (n.declref or n.captured): return v.loc
                 return key
             if n.dk == 'binding':
                 b = Node(n.tu, n.binding) if n.binding and n.binding in n.tu.ex else None
@@ -356,6 +392,7 @@ class Exec:
 
     # ---- elements -------------------------------------------------------------------------------------------------------------
     def _elem(self, e, st, fr):
+        self._st = st
         if e.kind == 'autodtor':
             st.events.append(('autodtor', None, (e.info['autodtor'], e.info['decl'], e.info.get('type'))))
             return None
@@ -379,8 +416,42 @@ class Exec:
             return self._inline_call(n, st, fr)
         if k == 'construct' and n.callee_in_root and not self.dom.opaque(n):
             return self._inline_call(n, st, fr)
+        if k == 'call':
+            clos = self.dom.sync_closures(self, n, st, fr)
+            if clos:
+                return self._call_with_closures(n, clos, st, fr)
         v = self._eval(n, st, fr)
         return None
+
+    def _call_with_closures(self, n, clos, st, fr):
+        """a std call that synchronously invokes closure arguments (cv.wait predicate, std algorithms): run each closure body
+        once in the caller's state (forking on its paths), let the domain post-process its result, then the call itself"""
+        states = [(st, dict(fr.vals))]
+        dead = []
+        for clo, args in clos:
+            nxt = []
+            for st1, vals1 in states:
+                sub = Frame(clo.fn, fr.this, fr.depth + 1)
+                for dk, (mode, v) in clo.env.items():
+                    st1.store[('l', sub.id, dk)] = v if mode == 'val' else Ref(v)
+                for i, p in enumerate(clo.fn.d['params']):
+                    st1.store[('l', sub.id, p['decl'])] = args[i] if i < len(args) and args[i] is not None else self.dom.init_param(clo.fn, p)
+                st1.events.append(('enter', n, clo.fn.name))
+                for st2, sub2, end in self._walk(sub, st1):
+                    st2.events.append(('leave', n, clo.fn.name))
+                    if end in ('throw', 'noreturn'): dead.append((st2, dict(vals1), end)); continue
+                    r = sub2.ret
+                    if isinstance(r, Ref): r = self.read(r.loc, st2)
+                    if self.dom.after_closure(self, n, clo, r, st2) is False: continue
+                    nxt.append((st2, dict(vals1)))
+            states = nxt
+        conts = []
+        for st1, vals1 in states:
+            fr1 = self._clone_frame(fr, vals1)
+            self._st = st1
+            v = self._eval(n, st1, fr1)
+            conts.append((st1, fr1.vals))
+        return ('fork', conts, dead)
 
     def _value(self, n, st, fr):
         if n is None: return None
@@ -478,12 +549,12 @@ class Exec:
                     if l is False: return False
                     r = self._truth(fr.vals[rn.id] if rn.id in fr.vals else self._rvalue(rn, st, fr))
                     if l is True: return r
-                    return False if r is False else Unknown('and')
+                    return False if r is False else Unknown(('and', n.id))
                 else:
                     if l is True: return True
                     r = self._truth(fr.vals[rn.id] if rn.id in fr.vals else self._rvalue(rn, st, fr))
                     if l is False: return r
-                    return True if r is True else Unknown('or')
+                    return True if r is True else Unknown(('or', n.id))
             if op == ',':
                 return self._value(n.n('rhs'), st, fr)
             l = self._rvalue(n.n('lhs'), st, fr); r = self._rvalue(n.n('rhs'), st, fr)
@@ -568,7 +639,20 @@ class Exec:
     def _truth(self, v):
         if isinstance(v, bool): return v
         if isinstance(v, Lin) and v.is_const(): return v.c != 0
+        if isinstance(v, Unknown):
+            st = getattr(self, '_st', None)
+            if st is not None and v.tag in st.assumed: return st.assumed[v.tag]
         return v
+
+    def assume(self, v, truth, st):
+        """record that abstract value v is known to be `truth` on this path; returns False if that contradicts the path"""
+        if isinstance(v, Ref): v = self.read(v.loc, st)
+        if isinstance(v, bool): return v == truth
+        if isinstance(v, Lin) and v.is_const(): return (v.c != 0) == truth
+        if isinstance(v, Unknown):
+            if v.tag in st.assumed: return st.assumed[v.tag] == truth
+            st.assumed[v.tag] = truth
+        return True
 
     def compare(self, op, l, r, n, st, fr):
         import operator
